@@ -287,9 +287,16 @@ def check_linearizable(phase, ops, q, tr, d, budget, stats):
     for i, (keys, cops) in enumerate(components(ops)):
         cname = "%s.c%d" % (phase, i)
         unknown = sorted(set(o.name for o in cops if not modelled.get(o.name, False)))
-        nonatomic = sorted(set(o.name for o in cops
-                               if not (rep.get(o.name, {}).get("single", False) and not rep.get(o.name, {}).get("why"))
-                               and o.name not in STAGED and o.name not in ("blpop", "brpop")))
+        # not checked as atomic steps: executors with an open listed finding, and the STORE forms
+        # (not required atomic) while their skeleton is not a single well-locked section
+        def skipped(n):
+            r = rep.get(n, {})
+            if n in tr["known"]:
+                return True
+            if n in ("sdiffstore", "sinterstore", "sunionstore"):
+                return not (r.get("single", False) and not r.get("why"))
+            return False
+        nonatomic = sorted(set(o.name for o in cops if skipped(o.name)))
         if unknown or nonatomic:
             stats["components_unchecked"] += 1
             stats["ops_unchecked"] += len(cops)
@@ -609,10 +616,12 @@ def new_stats():
                 exists_checked=0, unmodelled=set(), ops_total=0, phases=[], commands=set(), screened={})
 
 
-def run_workload(out, seed, tier, phases, skip, race=False, tcp=False, threads=None, nops=None, timeout=900):
+def run_workload(out, seed, tier, phases, skip, race=False, tcp=False, threads=None, nops=None, timeout=900, focus=None):
     """Runs harness_conc; returns (rc, output).  rc 4 = a phase did not finish (watchdog)."""
     exe = lib.BUILD / ("harness_conc_race" if race else "harness_conc")
     env = {"VERIF_CONC_SKIP": ",".join(sorted(skip)), "GORACE": "halt_on_error=0"}
+    if focus:
+        env["VERIF_CONC_FOCUS"] = ",".join(sorted(focus))
     if tcp:
         env["VERIF_CONC_TCP"] = "1"
     if threads:
